@@ -183,6 +183,17 @@ struct Dumper {
             }
         }
       }
+      if (auto *ce = dyn_cast<ConstantExpr>(c)) {
+        // (intptr_t)(array + N): the address of a global plus a constant, as an integer (folded `end - p`)
+        if (ce->getOpcode() == Instruction::PtrToInt) {
+          APInt off(64, 0);
+          const Value *base = ce->getOperand(0)->stripAndAccumulateConstantOffsets(DL, off, true);
+          if (auto *g = dyn_cast<GlobalVariable>(base)) {
+            O << "{\"k\":\"global\",\"name\":" << esc(g->getName()) << ",\"off\":" << off.getSExtValue() << ",\"ptrtoint\":true}";
+            return;
+          }
+        }
+      }
       if (isa<ConstantFP>(c)) { O << "{\"k\":\"fconst\"}"; return; }
       if (isa<ConstantAggregateZero>(c)) { O << "{\"k\":\"zero\"}"; return; }
       O << "{\"k\":\"other\",\"text\":";
